@@ -56,6 +56,7 @@ type slIn struct {
 	Cfg    slCfg  `json:"cfg"`
 	Ops    []slOp `json:"ops"`
 	Prefix int    `json:"prefix"` // > 0: the reference is only the first Prefix outputs (large configurations)
+	Stream bool   `json:"stream"` // every Save is appended to ONE log and the Loads read the saves back from it one after the other
 }
 
 func (in slIn) key() string {
@@ -68,6 +69,9 @@ func (in slIn) key() string {
 	}
 	if len(s) > 300 {
 		s = fmt.Sprintf("%s...(%d ops)", s[:260], len(in.Ops))
+	}
+	if in.Stream {
+		return fmt.Sprintf("SaveLoad[%s;one log](%s)", in.Cfg, s)
 	}
 	return fmt.Sprintf("SaveLoad[%s](%s)", in.Cfg, s)
 }
@@ -121,6 +125,7 @@ func session(in slIn, ref [][]int, emit func(tr.E)) {
 	its := map[int]*search.GraphIterator{1: newIter(in.Cfg)}
 	blobs := map[int][]byte{}
 	pre, post := predFuncs(in.Cfg)
+	var buf, log bytes.Buffer // buf: ONE writer reused (after Reset) by every Save of the session; log: the append-only stream of Stream sessions
 	for _, o := range in.Ops {
 		switch o.Op {
 		case "Next":
@@ -137,15 +142,28 @@ func session(in slIn, ref [][]int, emit func(tr.E)) {
 				return
 			}
 		case "Save":
-			var buf bytes.Buffer
-			res := obs.Safe(func() { its[o.I].Save(&buf) })
-			blobs[o.B] = buf.Bytes()
-			emit(tr.E{"ev": "Save", "i": o.I, "b": o.B, "res": res, "bytes": buf.Len()})
+			var res string
+			if in.Stream {
+				before := log.Len()
+				res = obs.Safe(func() { its[o.I].Save(&log) })
+				blobs[o.B] = append([]byte{}, log.Bytes()[before:]...)
+			} else {
+				buf.Reset()
+				res = obs.Safe(func() { its[o.I].Save(&buf) })
+				blobs[o.B] = append([]byte{}, buf.Bytes()...)
+			}
+			emit(tr.E{"ev": "Save", "i": o.I, "b": o.B, "res": res, "bytes": len(blobs[o.B])})
 			if res != "ok" {
 				return
 			}
 		case "Load":
-			res := obs.Safe(func() { its[o.I] = search.Load(bytes.NewReader(blobs[o.B]), pre, post) })
+			res := obs.Safe(func() {
+				if in.Stream { // the saves are read back in the order they were written, from the log itself
+					its[o.I] = search.Load(&log, pre, post)
+				} else {
+					its[o.I] = search.Load(bytes.NewReader(blobs[o.B]), pre, post)
+				}
+			})
 			emit(tr.E{"ev": "Load", "i": o.I, "b": o.B, "res": res})
 			if res != "ok" {
 				return
@@ -364,6 +382,19 @@ func driveC04(c *Ctx) {
 			runSession(set.Begin(in.key(), tr.E{"input": in}), in)
 			sessions++
 			positions++
+		}
+		// one log: two or three saves of the same iterator appended to one stream, then loaded one after the other from that stream
+		for t := 0; t < 3 && L > 0; t++ {
+			k1 := r.Intn(L + 1)
+			k2 := r.Intn(3)
+			if k2 > L-k1 { // Adv is specified for advances that stay inside the output
+				k2 = L - k1
+			}
+			ops := []slOp{{Op: "Adv", I: 1, T: k1}, {Op: "Save", I: 1, B: 1}, {Op: "Adv", I: 1, T: k2}, {Op: "Save", I: 1, B: 2}, {Op: "Save", I: 1, B: 3},
+				{Op: "Load", I: 2, B: 1}, {Op: "Load", I: 3, B: 2}, {Op: "Drain", I: 3}, {Op: "Load", I: 4, B: 3}, {Op: "Drain", I: 2}, {Op: "Drain", I: 4}, {Op: "Drain", I: 1}}
+			in := slIn{Cfg: cfg, Ops: ops, Stream: true}
+			runSession(set.Begin(in.key(), tr.E{"input": in}), in)
+			sessions++
 		}
 		// after exhaustion: save an exhausted iterator
 		in := slIn{Cfg: cfg, Ops: []slOp{{Op: "Drain", I: 1}, {Op: "Save", I: 1, B: 1}, {Op: "Load", I: 2, B: 1}, {Op: "Next", I: 2}, {Op: "Next", I: 1}, {Op: "Drain", I: 2}}}
